@@ -676,6 +676,10 @@ where
             }
         }
 
+        // the delivery loop is over: release the user's subscriber (exactly once,
+        // before the joiner - unsubscribe() or the store shutdown - returns)
+        subscriber.on_unsubscribe();
+
         #[cfg(dev)]
         eprintln!("store: {} channel thread done", _name);
     }
